@@ -56,8 +56,39 @@ def msg_class(msg):
     return s[:90]
 
 
-def panic_key(msg, loc):
-    return f"panic:{canon_loc(loc)}:{msg_class(msg)}"
+_BIGINT = re.compile(r'"i": ?(-?\d{16,})|"I": ?"(-?\d+)"|(?<![\w.])(\d{16,})(?![\w.])')
+_FLOATISH = re.compile(r'"f": ?"|"d": ?"|\d\.\d|\de[-+]?\d|infinite|nan|tonumber|todate|now|sqrt|pow|/')
+
+
+def total_order_cause(case):
+    """The one known cause of the `total order` panic of std's sort is documented behaviour: an integer
+    equals a float when it *rounds* to it (corelang §Equality), so integers beyond 2^53 that round to the
+    same float are unequal among themselves yet all equal to that float.  A case is attributed to that
+    cause only if its data shows both an integer beyond 2^53 and a non-integer number; anything else is a
+    different defect and gets its own key."""
+    text = json.dumps(case, ensure_ascii=True, default=str) if not isinstance(case, str) else case
+    if isinstance(case, dict):
+        for h in [case.get("stdin_hex") or ""] + list((case.get("files") or {}).values()):
+            try:
+                text += " " + bytes.fromhex(h).decode("latin-1")
+            except (ValueError, TypeError):
+                pass
+    big = False
+    for m in _BIGINT.finditer(text):
+        d = next(g for g in m.groups() if g)
+        if abs(int(d)) > 2 ** 53:
+            big = True
+            break
+    if big and _FLOATISH.search(text):
+        return "integers-beyond-2^53-mixed-with-floats"
+    return "other-cause"
+
+
+def panic_key(msg, loc, case=None):
+    key = f"panic:{canon_loc(loc)}:{msg_class(msg)}"
+    if case is not None and "total order" in (msg or ""):
+        key += ":" + total_order_cause(case)
+    return key
 
 
 def is_exempt_panic(msg):
